@@ -116,6 +116,21 @@ def observe13(m, desc) -> dict:
     return out
 
 
+def observe_states(m, states) -> list:
+    """Full argument table, named right-hand side and fluxes at every (time, state); state None = variables left at
+    their default.  Entries: (t, s, args[, rhs, fluxes])."""
+    per_state = []
+    for t, s in states:
+        mk = (lambda: None) if s is None else (lambda s=s: {nm(k): float(v) for k, v in s.items()})
+        a = m.get_args(mk(), time=float(t))
+        r = m.get_right_hand_side(mk(), time=float(t))
+        f = m.get_fluxes(mk(), time=float(t))
+        per_state.append((t, s, [(un(k), common.exact_int(v)) for k, v in a.items()],
+                          [(un(k), common.exact_int(v)) for k, v in r.items()],
+                          [(un(k), common.exact_int(v)) for k, v in f.items()]))
+    return per_state
+
+
 def judge13(desc, orc: Oracle, obs: dict, per_state: list) -> str | None:
     ic = orc.initial_conditions()
     if obs["ic"] != [(n, ic[n]) for n, _ in desc["var"]]:
@@ -132,10 +147,22 @@ def judge13(desc, orc: Oracle, obs: dict, per_state: list) -> str | None:
     # frozen vs recomputed: compare the args at every state with the oracle and with each other
     init_env = orc.initial_env()
     frozen = set(exp_dp) | {n for n, v in desc["par"] if v[0] == "ia"}
-    for t, s, args in per_state:
+    for t, s, args, *more in per_state:
         d = dict(args)
         st = ic if s is None else s
         memo: dict = {}
+        if more:
+            # "every other derived quantity, flux and computed coefficient is recomputed from the state supplied":
+            # judged through the named right-hand side (which evaluates the computed coefficients) and the fluxes too
+            rhs, fluxes = more
+            dx = orc.rhs(st, t)
+            exp_rhs = [(n, dx[n]) for n, _ in desc["var"]]
+            if rhs != exp_rhs:
+                return (f"get_right_hand_side at state {s}, t={t} gives {rhs}; rates and computed coefficients recomputed from "
+                        f"the supplied state and time give {exp_rhs}")
+            exp_fl = {f: orc.value(f, st, t, memo) for f, _ in orc.flux_entries()}
+            if dict(fluxes) != exp_fl:
+                return f"get_fluxes at state {s}, t={t} gives {fluxes}; recomputed from the supplied state and time: {exp_fl}"
         for k in frozen:
             if d.get(k) != init_env[k]:
                 return f"{nm(k)} is a derived/assigned parameter (value {init_env[k]} at t=0) but get_args at state {s}, t={t} gives {d.get(k)}"
@@ -145,6 +172,202 @@ def judge13(desc, orc: Oracle, obs: dict, per_state: list) -> str | None:
             ev = orc.value(k, st, t, memo)
             if v != ev:
                 return f"{nm(k)} must be recomputed from the supplied state: get_args gives {v}, expected {ev} (state {s}, t={t})"
+    return None
+
+
+# ---------------------------------------------------------------------------------------
+# sequences: Simulator overrides, in-place mutation of query results, looking at a simulation result
+# ---------------------------------------------------------------------------------------
+
+ALIAS_FINDING = "C13-query-results-alias-cache"
+_ALIAS_STEPS_KNOWN = ("get_initial_conditions", "get_parameter_values", "Simulator.y0")
+
+
+def _alias_listed() -> bool:
+    return any(f.get("id") == ALIAS_FINDING for f in common.load_known_findings("C13"))
+
+
+def _rejudge(m, desc, orc, states) -> str | None:
+    return judge13(desc, orc, observe13(m, desc), observe_states(m, states))
+
+
+def seq_sim_override(desc, orc, states, ov: list, single: bool) -> str | None:
+    """Simulator(model) with the default start, an override BEFORE the first simulation, then the model is asked again."""
+    from mxlpy import Simulator
+
+    m = modelgen.build(desc)
+    ic = orc.initial_conditions()
+    sim = Simulator(m, test_run=False)
+    if single:
+        for k, v in ov:
+            sim.update_variable(nm(k), float(v))
+    else:
+        sim.update_variables({nm(k): float(v) for k, v in ov})
+    exp = [(n, dict(ov).get(n, ic[n])) for n, _ in desc["var"]]
+    got = [(un(k), common.exact_int(v)) for k, v in sim.y0.items()]
+    if dict(got) != dict(exp):
+        return f"Simulator.update_variable(s) {[(nm(k), v) for k, v in ov]} before the first simulation: start state {got}, expected {exp}"
+    bad = _rejudge(m, desc, orc, states[:2])
+    if bad:
+        return (f"after Simulator(model).update_variable(s)({[(nm(k), v) for k, v in ov]}) on a simulator with the default start, before "
+                f"its first simulation, the MODEL answers differently: {bad}")
+    return None
+
+
+def alias_steps(desc):
+    """(label, mutate(model)) : change IN PLACE what a public query handed out."""
+    from mxlpy import Simulator
+
+    def bump_dict(d):
+        for k in list(d):
+            d[k] = d[k] + 5.0
+        d["n9001"] = 1.0
+
+    def bump_series(x):
+        x.iloc[:] = 99.0
+
+    def names(getter):
+        def go(m):
+            getattr(m, getter)().append("n9003")
+        return go
+
+    def y0(m):
+        bump_dict(Simulator(m, test_run=False).y0)
+
+    steps = [
+        ("get_initial_conditions", lambda m: bump_dict(m.get_initial_conditions())),
+        ("get_parameter_values", lambda m: bump_dict(m.get_parameter_values())),
+        ("Simulator.y0", y0),
+        ("get_args", lambda m: bump_series(m.get_args())),
+        ("get_fluxes", lambda m: bump_series(m.get_fluxes())),
+        ("get_right_hand_side", lambda m: bump_series(m.get_right_hand_side())),
+    ]
+    if desc["rxn"] or any(s[4] for s in desc["sur"]):
+        def sto(m):
+            t = m.get_stoichiometries()
+            t.iloc[:, :] = 99.0
+        steps.append(("get_stoichiometries", sto))
+    for g in ("get_variable_names", "get_parameter_names", "get_derived_parameter_names", "get_derived_variable_names", "get_reaction_names"):
+        steps.append((g, names(g)))
+    return steps
+
+
+def seq_alias(desc, orc, states, only: str | None = None) -> tuple[str, str] | None:
+    """-> (step label, what) for the first query whose result aliases model state: after changing the returned object in
+    place the model (a fresh one per step, queried once before so that its cache is filled) must answer as before."""
+    for label, mutate in alias_steps(desc):
+        if only is not None and label != only:
+            continue
+        m = modelgen.build(desc)
+        m.get_args()
+        mutate(m)
+        bad = _rejudge(m, desc, orc, states[:1])
+        if bad:
+            return label, f"after changing IN PLACE the object returned by {label}(): {bad}"
+    return None
+
+
+class _SimTimeout(Exception):
+    pass
+
+
+def seq_result(desc, orc, states, ups: list) -> tuple[str | None, str]:
+    """simulate -> look at the lazily computed result tables -> the model must be what it was -> update a plain
+    parameter -> everything resolved again from the NEW value.  -> (what is wrong | None, note)"""
+    import signal
+
+    from mxlpy import Simulator
+
+    def alarm(signum, frame):  # noqa: ANN001, ARG001
+        raise _SimTimeout
+
+    m = modelgen.build(desc)
+    note = "looked"
+    signal.signal(signal.SIGALRM, alarm)
+    signal.setitimer(signal.ITIMER_REAL, 5.0)
+    try:
+        sim = Simulator(m, test_run=False)
+        sim.simulate(0.125, steps=2)
+        res = sim.get_result().value
+        if hasattr(res, "variables"):
+            _ = res.variables
+            _ = res.fluxes
+        else:
+            note = "integration failed"
+    except _SimTimeout:
+        note = "simulation timed out"
+    except Exception as e:  # noqa: BLE001  (a failing integration / result table is not what C13 is about)
+        note = f"simulation raised {type(e).__name__}"
+    finally:
+        signal.setitimer(signal.ITIMER_REAL, 0)
+    bad = _rejudge(m, desc, orc, states[:2])
+    if bad:
+        return f"after simulating and looking at result.variables / result.fluxes ({note}): {bad}", note
+    for n, v in ups:
+        m.update_parameter(nm(n), float(v))
+    desc2 = apply_updates13(desc, [], ups)
+    bad = _rejudge(m, desc2, Oracle(desc2), states[:2])
+    if bad:
+        return (f"simulate, look at the result tables ({note}), then update_parameter {[(nm(n), v) for n, v in ups]}: assignments and "
+                f"everything chained through them must follow the new value: {bad}"), note
+    return None, note
+
+
+def stage_sim_override(run, rng, desc, orc, states, dist, budget):
+    if budget["sim_override"] <= 0:
+        return None
+    budget["sim_override"] -= 1
+    vs = [n for n, _ in desc["var"]]
+    ov = [(n, rng.randint(-3, 3) + 10) for n in rng.sample(vs, min(len(vs), rng.choice([1, 1, 2])))]
+    single = rng.random() < 0.5
+    dist["seq_sim_override"] = dist.get("seq_sim_override", 0) + 1
+    run.count_case(("sim_override", repr(desc), repr(ov), single), nontrivial=True)
+    bad = seq_sim_override(desc, orc, states, ov, single)
+    if bad:
+        return "violation", bad, {"kind": "c13seq", "stage": "sim_override", "desc": desc, "states": states, "override": ov, "single": single}
+    return None
+
+
+def stage_alias(run, rng, desc, orc, states, dist, budget):
+    if budget["alias"] <= 0:
+        return None
+    budget["alias"] -= 1
+    dist["seq_alias"] = dist.get("seq_alias", 0) + 1
+    run.count_case(("alias", repr(desc)), nontrivial=True)
+    hit = seq_alias(desc, orc, states)
+    if hit is None:
+        return None
+    label, what = hit
+    if label in _ALIAS_STEPS_KNOWN and _alias_listed():
+        # recorded finding (cache dicts handed out by get_initial_conditions / get_parameter_values); the remaining
+        # steps are still checked with the known ones skipped
+        for lb, _ in alias_steps(desc):
+            if lb in _ALIAS_STEPS_KNOWN:
+                continue
+            other = seq_alias(desc, orc, states, only=lb)
+            if other is not None:
+                return "violation", other[1], {"kind": "c13seq", "stage": "alias", "desc": desc, "states": states, "step": lb}
+        return "known", what, {}
+    return "violation", what, {"kind": "c13seq", "stage": "alias", "desc": desc, "states": states, "step": label}
+
+
+def stage_result_then_update(run, rng, desc, orc, states, dist, budget):
+    plain_p = [n for n, v in desc["par"] if v[0] == "plain"]
+    ias = [v for _, v in desc["par"] + desc["var"] if v[0] == "ia"]
+    if budget["result"] <= 0 or not plain_p or not ias:
+        return None
+    named = [n for n in plain_p if any(n in v[2] for v in ias)]
+    ups = [(rng.choice(named or plain_p), rng.randint(-3, 3))]
+    desc2 = apply_updates13(desc, [], ups)
+    if not c01.bounded(Oracle(desc2), states[:2]):
+        return None
+    budget["result"] -= 1
+    run.count_case(("result", repr(desc), repr(ups)), nontrivial=True)
+    bad, note = seq_result(desc, orc, states, ups)
+    dist["seq_result"] = dist.get("seq_result", {})
+    dist["seq_result"][note.split(" raised")[0]] = dist["seq_result"].get(note.split(" raised")[0], 0) + 1
+    if bad:
+        return "violation", bad, {"kind": "c13seq", "stage": "result", "desc": desc, "states": states, "updates_par": ups}
     return None
 
 
@@ -186,16 +409,14 @@ def check(run: Run) -> None:
     dist = {"models": 0, "discarded_unbounded": 0, "ia_on_variable": 0, "ia_on_parameter": 0, "ia_chain": 0,
             "derived_parameters": 0, "derived_variables": 0}
     n_viol = 0
+    alias_reported = False
+    budget = {"sim_override": 400 if thorough else 90, "alias": 300 if thorough else 60, "result": 200 if thorough else 40}
     for i in range(n_models):
         desc = modelgen.gen_model(rng, ia_bias=0.9, max_comp=9)
         orc = Oracle(desc)
-        states = [(0, None)] + [modelgen.gen_state(rng, desc) for _ in range(2)]
-        try:
-            orc.initial_env()
-            for t, s in states:
-                for k in orc.all_names():
-                    orc.value(k, orc.initial_conditions() if s is None else s, t)
-        except Unbounded:
+        # declared initial state at t = 0 and (variables=None) at a later time, two supplied states at random times
+        states = [(0, None), (rng.randint(1, 4), None)] + [modelgen.gen_state(rng, desc) for _ in range(2)]
+        if not c01.bounded(orc, states):
             dist["discarded_unbounded"] += 1
             continue
         dist["models"] += 1
@@ -209,11 +430,7 @@ def check(run: Run) -> None:
         try:
             m = modelgen.build(desc)
             obs = observe13(m, desc)
-            per_state = []
-            for t, s in states:
-                vars_d = None if s is None else {nm(k): float(v) for k, v in s.items()}
-                a = m.get_args(vars_d, time=float(t))
-                per_state.append((t, s, [(un(k), common.exact_int(v)) for k, v in a.items()]))
+            per_state = observe_states(m, states)
             bad = judge13(desc, orc, obs, per_state)
         except Exception as e:  # noqa: BLE001
             bad = f"well-formed model raised {type(e).__name__}: {e}"
@@ -222,6 +439,22 @@ def check(run: Run) -> None:
                 n_viol += 1
                 run.violation(f"C13 {bad}", {"kind": "c13", "desc": desc, "states": states})
             continue
+        # sequences around Simulator / in-place mutation of query results / looking at a simulation result
+        for stage in (stage_sim_override, stage_alias, stage_result_then_update):
+            try:
+                res = stage(run, rng, desc, orc, states, dist, budget)
+            except Exception as e:  # noqa: BLE001
+                res = ("violation", f"{stage.__name__}: well-formed model raised {type(e).__name__}: {e}", {"kind": "c13seq", "stage": stage.__name__, "desc": desc, "states": states})
+            if res is None:
+                continue
+            verdict, what, rep = res
+            if verdict == "known":
+                if not alias_reported:
+                    alias_reported = True
+                    run.known(ALIAS_FINDING, what)
+            elif n_viol < 4:
+                n_viol += 1
+                run.violation(f"C13 {what}", rep)
         cases.append(coq_case13(desc, obs))
         descs.append(desc)
         if i == 0:
@@ -238,12 +471,7 @@ def check(run: Run) -> None:
                 ups_p = [] if ups_v else [(n, rng.randint(-3, 3)) for n in plain_p[:1]]
             desc2 = apply_updates13(desc, ups_v, ups_p)
             orc2 = Oracle(desc2)
-            try:
-                orc2.initial_env()
-                for t, s in states:
-                    for k in orc2.all_names():
-                        orc2.value(k, orc2.initial_conditions() if s is None else s, t)
-            except Unbounded:
+            if not c01.bounded(orc2, states):
                 dist["discarded_unbounded"] += 1
                 continue
             dist["after_update"] = dist.get("after_update", 0) + 1
@@ -254,11 +482,7 @@ def check(run: Run) -> None:
                 for n, v in ups_p:
                     m.update_parameter(nm(n), float(v))
                 obs2 = observe13(m, desc2)
-                per_state = []
-                for t, s in states:
-                    vars_d = None if s is None else {nm(k): float(v) for k, v in s.items()}
-                    a = m.get_args(vars_d, time=float(t))
-                    per_state.append((t, s, [(un(k), common.exact_int(v)) for k, v in a.items()]))
+                per_state = observe_states(m, states)
                 bad = judge13(desc2, orc2, obs2, per_state)
             except Exception as e:  # noqa: BLE001
                 bad = f"well-formed model raised {type(e).__name__}: {e}"
@@ -298,7 +522,27 @@ def apply_updates13(desc, ups_v, ups_p):
 
 def replay(rep: dict) -> int:
     r = rep["replay"]
+    if "desc" not in r:
+        print("nothing to replay: ", rep.get("what"))
+        return 1
     desc = {k: [c01._tup(x) for x in v] for k, v in r["desc"].items()}
+    if r.get("kind") == "c13seq":
+        states = [(t, None if s is None else {int(k): v for k, v in s.items()}) for t, s in r["states"]]
+        orc = Oracle(desc)
+        try:
+            if r["stage"] == "sim_override":
+                bad = seq_sim_override(desc, orc, states, [tuple(x) for x in r["override"]], bool(r["single"]))
+            elif r["stage"] == "alias":
+                hit = seq_alias(desc, orc, states, only=r.get("step"))
+                bad = hit[1] if hit else None
+            elif r["stage"] == "result":
+                bad = seq_result(desc, orc, states, [tuple(x) for x in r["updates_par"]])[0]
+            else:
+                bad = seq_alias(desc, orc, states) or seq_result(desc, orc, states, [])[0]
+        except Exception as e:  # noqa: BLE001
+            bad = f"raised {type(e).__name__}: {e}"
+        print(bad or "property holds on this input")
+        return 1 if bad else 0
     ups_v = [tuple(u) for u in r.get("updates_var", [])]
     ups_p = [tuple(u) for u in r.get("updates_par", [])]
     try:
@@ -313,13 +557,8 @@ def replay(rep: dict) -> int:
             desc = apply_updates13(desc, ups_v, ups_p)
         orc = Oracle(desc)
         obs = observe13(m, desc)
-        per_state = []
-        for t, s in r["states"]:
-            s = None if s is None else {int(k): v for k, v in s.items()}
-            vars_d = None if s is None else {nm(k): float(v) for k, v in s.items()}
-            a = m.get_args(vars_d, time=float(t))
-            per_state.append((t, s, [(un(k), common.exact_int(v)) for k, v in a.items()]))
-        bad = judge13(desc, orc, obs, per_state)
+        states = [(t, None if s is None else {int(k): v for k, v in s.items()}) for t, s in r["states"]]
+        bad = judge13(desc, orc, obs, observe_states(m, states))
     except Exception as e:  # noqa: BLE001
         bad = f"raised {type(e).__name__}: {e}"
     print(bad or "property holds on this input")
